@@ -14,6 +14,11 @@ CLAIMED = {
   note="Trusted: Go type checker, go/ssa, the explorer's path-class abstraction (facts pruned by liveness, phis of flags/pointers resolved, loops widened), reply = method named ProcessLockResultCommand[Locked].",
   technique="path-sensitive SSA typestate (reply linearity, tombstone test-and-set ordering, ownership of pooled commands), custom checker",
   ref="DESIGN.md section 4 C03"),
+ "C04": dict(
+  text="Static analysis: every store lowering a key's depth is followed on all paths to the function exit by the wake-up pass for the same manager (7 sites, condition-correlated through register snapshots); the pass re-reads the queue head after every grant and exits only on not-waited / nil head / inadmissible head; GetWaitLock returns Head() and discards only tombstoned or ack-pending entries; no barging past waiters on a held key without priority flag + strict priority test; AddWaitLock switches to the priority ring unless priorities cannot differ. Order inside the containers (C20 territory) and interleavings between an unlock and its pass are not decided, hence 'other'.",
+  note="Trusted: Go type checker, go/ssa, the explorer; container methods (Head/Pop/Push/MaxPriority) are assumed to behave as a queue.",
+  technique="path-sensitive SSA must-follow / guard-dominance analysis, custom checker",
+  ref="DESIGN.md section 4 C04"),
 }
 
 NA = {
